@@ -31,6 +31,10 @@ extern MPT_INTERFACE(metatype) *_mpt_geninfo_clone(const void *info)
 		errno = EINVAL;
 		return 0;
 	}
+	/* text not assigned, keep unset state */
+	if (!vec.iov_len) {
+		return mpt_meta_geninfo(0);
+	}
 	/* stored data includes terminator appended by _mpt_geninfo_set() */
 	if (vec.iov_len && !((const char *) vec.iov_base)[vec.iov_len - 1]) {
 		--vec.iov_len;
